@@ -757,6 +757,61 @@ pub fn stream_model(out: &mut Out, seed: u64, thorough: bool) {
             }
         }
     }
+    // (d) LARGE models (size thresholds: word-sized bit masks, small-vector fast paths, hash-map
+    //     growth): 33..200 model parameters, functions of arity 1..3 over the shuffled names, an
+    //     invariant function mid-list, one function over the first / last / a middle parameter declared
+    //     out of model order; derivatives requested around the indices 31, 32, 63, 64, 65, 127, 128
+    let sizes: Vec<usize> = if thorough { vec![33, 63, 64, 65, 70, 100, 127, 128, 129, 200, 257] } else { vec![33, 64, 65, 70, 129] };
+    for (li, p) in sizes.iter().enumerate() {
+        let p = *p;
+        let names: Vec<String> = (0..p).map(|i| format!("p{}", i)).collect();
+        let mut pool = names.clone();
+        rng.shuffle(&mut pool);
+        let mut calls: Vec<MCall> = vec![MCall::X(2)];
+        let mut i = 0usize;
+        let mut fi = 0usize;
+        while i < p {
+            let ar = rng.range(1, 3).min(p - i);
+            let fps: Vec<String> = pool[i..i + ar].to_vec();
+            calls.push(MCall::Function(fps.clone(), Probe { arity: ar, code: (fi as i64) % 7 + 1, len: None }));
+            let mut order: Vec<usize> = (0..ar).collect();
+            rng.shuffle(&mut order);
+            for oi in order {
+                calls.push(MCall::Deriv(fps[oi].clone(), Probe { arity: ar, code: (oi as i64 + fi as i64) % 8, len: None }));
+            }
+            if fi == p / 5 {
+                calls.push(MCall::Invariant(Probe { arity: 0, code: 5, len: None }));
+            }
+            i += ar;
+            fi += 1;
+        }
+        let g: Vec<String> = vec![names[p - 1].clone(), names[0].clone(), names[p / 2].clone()];
+        calls.push(MCall::Function(g.clone(), Probe { arity: 3, code: 6, len: None }));
+        for oi in [1usize, 2, 0] {
+            calls.push(MCall::Deriv(g[oi].clone(), Probe { arity: 3, code: 3 + oi as i64, len: None }));
+        }
+        calls.push(MCall::Init((0..p).map(|_| rng.range(0, 7) as i64).collect()));
+        let mut ks: Vec<usize> = vec![0, 1, 31, 32, 33, 62, 63, 64, 65, 66, 126, 127, 128, 129, p / 2, p - 2, p - 1];
+        ks.retain(|k| *k < p);
+        for _ in 0..6 {
+            ks.push(rng.below(p));
+        }
+        let mut ops = vec![MOp::Params, MOp::Eval];
+        for k in ks.iter() {
+            ops.push(MOp::Deriv(*k));
+        }
+        ops.push(MOp::Set((0..p).map(|_| rng.range(0, 7) as i64).collect()));
+        ops.push(MOp::Params);
+        ops.push(MOp::Eval);
+        for k in ks.iter().rev().take(8) {
+            ops.push(MOp::Deriv(*k));
+        }
+        if li % 2 == 0 {
+            emit_case::<i64>(out, &names, &calls, &ops, 8, "large");
+        } else {
+            emit_case::<f64>(out, &names, &calls, &ops, 8, "large");
+        }
+    }
     // (c) misuse (C17): wrong output lengths at every function / derivative position, wrong indices,
     //     wrong parameter counts, interleaved with valid calls in random order
     let nmis = if thorough { 6000 } else { 800 };
